@@ -14,6 +14,7 @@ struct ImgCfg {
   bool header = true;          // "BR over word 1; word 1 = stack pointer" layout
   unsigned undefPerMille = 4;  // undefined bytes
   unsigned maxChain = 9;       // longest prefix chain
+  unsigned spIntoCodePerMille = 70;   // the stack pointer aimed at the word of a system call
 };
 
 class ImgGen {
@@ -155,6 +156,18 @@ public:
       emit(0x1, 1); emit(0x3, (uint32_t)r.below(256)); emit(0x8, 2); emit(0x3, 0); byte(0xD, 3);
     }
     while (out.size() % 4) out.push_back((char)0);
+    // Now and then the stack pointer is aimed so that a system call's result slot (sp+1) is the very word
+    // its OPR SVC sits in, or the next one: the call then rewrites code that is about to run.
+    if (cfg.header && r.chance(cfg.spIntoCodePerMille, 1000)) {
+      std::vector<size_t> svc, rd;
+      for (size_t k = 8; k < out.size(); k++) if ((unsigned char)out[k] == 0xD3) { svc.push_back(k); if ((unsigned char)out[k - 1] == 0x32) rd.push_back(k); }
+      if (!rd.empty() && r.chance(2, 3)) svc = rd;       // mostly a READ call: its result is what lands in the code
+      if (!svc.empty()) {
+        uint32_t w = (uint32_t)(svc[r.chance(1, 2) ? 0 : r.below(svc.size())] / 4);     // often the first call: nothing has scribbled over the code yet
+        uint32_t nsp = w - 1 + (uint32_t)r.below(2);
+        for (int k = 0; k < 4; k++) out[4 + (size_t)k] = (char)(nsp >> (8 * k));
+      }
+    }
     return out;
   }
 };
